@@ -23,11 +23,12 @@ theorem run_builtin_fo (f : Nat) (name : String) (hn : name ∈ foBuiltins) (arg
     (builtin (f + 1) name args).run s = foResult name args s := by
   obtain ⟨h1, h2, h3⟩ := foBuiltins_not_ho name hn
   have h4 := foBuiltins_not_substitute name hn
+  have h5 := foBuiltins_not_probe name hn
   rw [builtin.eq_def]
   unfold foResult
   by_cases ht : name = "trace"
   · simp only [ht, if_true, run_bind, run_modify, run_pure]
-  · simp only [ht, h1, h2, h3, h4, if_false, run_bind, run_get]
+  · simp only [ht, h1, h2, h3, h4, h5, if_false, run_bind, run_get]
     cases prim name args s.heap with
     | none => simp only [run_err]
     | some r => obtain ⟨v, h⟩ := r; simp only [run_bind, run_set, run_pure]
@@ -42,10 +43,11 @@ theorem ref_applyFn_fo (n : Nat) (name : String) (hn : name ∈ foBuiltins) (arg
         | none => .err rs := by
   obtain ⟨h1, h2, h3⟩ := foBuiltins_not_ho name hn
   have h4 := foBuiltins_not_substitute name hn
+  have h5 := foBuiltins_not_probe name hn
   rw [Ref.applyFn.eq_def]
   by_cases ht : name = "trace"
   · simp only [ht, if_true]
-  · simp only [ht, h1, h2, h3, h4, if_false]
+  · simp only [ht, h1, h2, h3, h4, h5, if_false]
     cases prim name args rs.heap with
     | none => rfl
     | some r => rfl
